@@ -226,7 +226,7 @@ theorem noAdj_of_valid {t : HTree} (hv : validTree true t = true) : noAdjacentTe
     simpa [HTree.kids] using hv.1.2
 
 /-- `remove_subtree` of a text node deletes exactly that node. -/
-theorem dropSubtree_text {g : Forest} {b : Bool} (nd : g.allHandles.Nodup) (hv : validList b g.roots = true)
+theorem dropSubtree_text {g : Forest} (nd : g.allHandles.Nodup)
     {k : HTree} {anc : List HTree} (o : Occurs g k anc) (hk : k.value.isText = true) :
     g.dropSubtree k.handle = pruned g (fun h => h == k.handle) := by
   have hget := o.get? nd
@@ -301,7 +301,7 @@ theorem remove_eq_drop {g : Forest} (nd : g.allHandles.Nodup) (hv : validList tr
   apply removeConsolidate_noop
   intro ph hph
   have h1 := prev_not_text nd hv o hk hph
-  rw [dropSubtree_text nd hv o hk]
+  rw [dropSubtree_text nd o hk]
   cases ht : (pruned g (fun h => h == k.handle)).textOf ph with
   | none => rfl
   | some s => rw [pruned_textOf _ nd ht] at h1; cases h1
@@ -310,7 +310,7 @@ theorem remove_eq_drop {g : Forest} (nd : g.allHandles.Nodup) (hv : validList tr
 theorem remove_text {g : Forest} (nd : g.allHandles.Nodup) (hv : validList true g.roots = true)
     {k : HTree} {anc : List HTree} (o : Occurs g k anc) (hk : k.value.isText = true) :
     (g.remove k.handle).1 = pruned g (fun h => h == k.handle) := by
-  rw [remove_eq_drop nd hv o hk, dropSubtree_text nd hv o hk]
+  rw [remove_eq_drop nd hv o hk, dropSubtree_text nd o hk]
 
 end Fws
 end XotModel
